@@ -21,7 +21,7 @@ PROP = dict(
                "not verified: uint32 conversion of the interval (no overflow below 2^32 s), time.Now.  Not covered: "
                "the copy restored after a restart (C25-2: the storage layer does not persist Expiry - C20-C22, "
                "w-storage), will messages, the inline client.",
-    engines=[dict(hx="expiry")],
+    engines=[dict(hx="expiry"), dict(hx="restart_expiry", timeout=900)],
     theorems=["C25_effective", "C25_housekeeping_exact", "C25_no_expired_delivery",
               "C25_interval_shrinks_modulo_findings", "C25_interval_refuted"],
     model_files="coq/Session/Expiry.v",
@@ -33,7 +33,11 @@ PROP = dict(
          "store of a parked session, same boundary offsets (whether the message has an expiry of its own depends on "
          "the publisher's message only); 120 (thorough 6000) random scenarios with two housekeeping runs at offsets "
          "{-5,-1,0,1,2,7,100,100000} (retained: a late subscriber after each); 9 scenarios in which real time passes "
-         "the expiry time (sleep 1.1-2.1 s) before the delivery.  non-trivial = the message has an expiry time; "
+         "the expiry time (sleep 1.1-2.1 s) before the delivery.  restart_expiry (w-storage): server maximum {0,4,86400} x MQTT 5 "
+         "publishes with interval {0,2,10,100000} and an MQTT 3.1.1 publish, retained and queued for an offline persistent "
+         "session, on each of the four storage back ends; shutdown, restart on the same store, housekeeping at creation time "
+         "+ {0..14, 86398..86404, 99998..100004}: after each run exactly the restored messages whose expiry time has not "
+         "passed are left.  non-trivial = the message has an expiry time; "
          "distinct = distinct case lines",
     modelled="server.go processPublish/publishToSubscribers (minimum, Expiry), publishToClient (hold marker), "
              "clearExpiredRetainedMessages, clearExpiredInflights; clients.go ClearExpiredInflights, WritePacket "
